@@ -231,6 +231,15 @@ class Interp:
                 q.conds.append(('typeid_eq', dv[1], dv[2], truth))
                 q.ev('branch_typeid', a=dv[1], b=dv[2], value=truth, block=b)
                 return
+            # normal form: strip negations, Ne -> !Eq, constant operand on the right
+            while dv[0] == 'unop' and dv[1] == 'Not':
+                dv = dv[2]
+                truth = not truth
+            if dv[0] == 'binop' and dv[1] == 'Ne':
+                dv = ('binop', 'Eq', dv[2], dv[3])
+                truth = not truth
+            if dv[0] == 'binop' and dv[1] == 'Eq' and dv[2][0] == 'const' and dv[3][0] != 'const':
+                dv = ('binop', 'Eq', dv[3], dv[2])
             q.conds.append(('cond', dv, truth))
             q.ev('branch', on=dv, value=truth, block=b)
             return
@@ -302,6 +311,10 @@ class Interp:
             if not pl['p']:
                 cur = p.env.get((frame, pl['l']))
                 return ('ref', frame, pl['l'])
+            if pl['p'] == ['*']:
+                cur = p.env.get((frame, pl['l']))
+                if cur is not None and cur[0] == 'ref':
+                    return cur       # reborrow of a reference to a local: still that reference
             return self.place_val(p, fn, frame, pl)
         if k == 'cast':
             v = self.operand(p, fn, frame, rv['op'])
@@ -348,6 +361,10 @@ class Interp:
             a = self.operand(p, fn, frame, rv['a'])
             if rv['op'] == 'Not' and a[0] == 'bit':
                 return ('notbit', a[1], a[2])
+            if rv['op'] == 'Not' and a[0] == 'const' and a[1] in (0, 1, True, False):
+                return ('const', int(not a[1]))
+            if rv['op'] == 'Not' and a[0] == 'unop' and a[1] == 'Not':
+                return a[2]
             return ('unop', rv['op'], a)
         if k == 'discr':
             return ('discr', self.place_val(p, fn, frame, rv['place']))
